@@ -197,6 +197,12 @@ def _json_chunk(payload):
                     try:
                         pairs = p.parse(start, text)
                         mirror(pairs, text, value)
+                        # the same str object once more on the same parser object (a document is often parsed again; whatever a
+                        # parser remembers about "this text" must not change the answer)
+                        again = p.parse(start, text)
+                        stats["evaluations"] += 1
+                        if modes.tree_of(again) != modes.tree_of(pairs):
+                            fails.append({"kind": "second-parse-of-the-same-text-differs", "grammar": gpath, "mode": mode, "input": text})
                     except PestParsingError:
                         fails.append({"kind": "rejects-valid-json", "grammar": gpath, "mode": mode, "input": text})
                     except Mismatch as exc:
@@ -522,7 +528,7 @@ def run(tier: str) -> int:
         "evaluations": agg.get("evaluations", 0),
         "distinct_nontrivial": agg.get("docs", 0) + agg.get("kept", 0),
         "rule": "JSON: all documents of a bounded generator (top level array or object, three nesting levels, width <= 2, scalars "
-                f"{SCALARS}) plus every string literal of up to 3 (thorough 4) pieces from {{a, blank, \\n, \\\", \\\\, é, \\u00e9, /, \\/, \\t, 0}} as array element, and up to 2 pieces as key and value and as two elements, in the layouts: no whitespace, one space at every gap, leading space, and each single gap set to newline+tab; both bundled JSON grammars x four modes; the tree must mirror json.loads "
+                f"{SCALARS}) plus every string literal of up to 3 (thorough 4) pieces from {{a, blank, \\n, \\\", \\\\, é, \\u00e9, /, \\/, \\t, 0}} as array element, and up to 2 pieces as key and value and as two elements, in the layouts: no whitespace, one space at every gap, leading space, and each single gap set to newline+tab; both bundled JSON grammars x four modes; the tree must mirror json.loads, and parsing the same str object a second time on the same parser must give the same tree "
                 "(nesting, member order, float(number text) == value, json.loads(string pair text) == value) and, for the first two layouts, every proper prefix must be rejected. "
                 "Calculator: every well-formed token string -* T !* (op -* T !*)* with T an operand from {0,1,2,3,x} or a parenthesised expression, up to N tokens, in two layouts; an expression is kept only if EVERY bracketing of it "
                 "evaluates without error and within 1e6 under an independent evaluator (so any tree an implementation builds is safe to evaluate); the three implementations, with parser modules generated in memory from the optimised and from the unoptimised grammar, "
